@@ -3,6 +3,7 @@ C16 — no message content can crash the client; colouring never alters text.
 (after the two `fix:` commits: length checks in brush.go and maprhandler.go)
 -/
 import DtailModel.Lemmas.Color
+import DtailModel.Lemmas.GenBrush
 namespace Dtail.C16
 open Dtail
 
@@ -100,5 +101,19 @@ theorem C16_mapr_chunking (a b : Bytes) :
 /-- non-vacuity / sanity: a REMOTE record is rendered with codes around every field -/
 example : texts (colorfy defaultTbl (b!"REMOTE|h|100|7|id|ERROR x\n")) = b!"REMOTE|h|100|7|id|ERROR x\n" ∧
     (colorfy defaultTbl (b!"REMOTE|h|100|7|id|ERROR x\n")).length > 40 := by decide
+
+/-! ### Tie G (panic-aware): brush.go as translated from the working tree on this run -/
+
+/-- **`Colorfy` of the working tree never crashes and never alters text.**  `Colorfy`, `paintRemote`, `paintClient`,
+    `paintServer`, `paintSeverity`, `paintDefault` are translated on every run with every positional field access
+    guarded; `color.PaintWithAttr` is a parameter.  For every line — any prefix, any number of fields — no guard
+    fails, and for every way of painting from which the paint can be removed again (`strip (paint sb text) =
+    strip sb ++ text`), the painted line with the paint removed is the line. -/
+theorem C16_generated_colorfy_lossless (ext : Go.Ext) (strip : Bytes → Bytes) (hs : GenBrush.Strips ext strip) (line : Bytes) :
+    ∃ out, Gen.Brush.Colorfy ext line = Outcome.ok out ∧ strip out = line :=
+  GenBrush.Colorfy_lossless ext strip hs line
+
+/-- the assumption is satisfiable: painting that adds nothing, removed by doing nothing -/
+example : GenBrush.Strips { parseFloat := fun _ => (0, none) } id := ⟨rfl, fun _ _ => rfl⟩
 
 end Dtail.C16
